@@ -77,6 +77,11 @@ def api_scripts(tier, rng, n=None):
         kw = {}
         if mki:
             kw = dict(keys=[(rand_key(rng, 30), bytes([i, 7])) for i in range(2)], use_mki=True, mki_size=2, use_key_field=False)
+        if not __import__("lib.apigen", fromlist=["x"]).AEAD and k % 3 == 2:
+            # streams without the authentication service (legal: e.g. srtp_crypto_policy_set_aes_cm_128_null_auth) use up the key
+            # budget like any other
+            from lib.apigen import cp, NULL_AUTH
+            kw["rtp"] = rng.choice([cp(serv=1), cp(serv=0), cp(auth=NULL_AUTH, authkeylen=0, taglen=0, serv=1)])
         L = []
         if wildcard:
             ps = default_policy(rng, 0, ssrc_type=SSRC_ANY_OUT, **kw)
